@@ -161,6 +161,7 @@ func (h *H[T]) C11(rc *runCtx) *Violation {
 				}
 				id := sim.ObjID(unsafe.Pointer(b))
 				ts.events = append(ts.events, poolEvent{step: t.Step, task: ti, kind: evGet, obj: id})
+				sim.Mix(0x9000 | uint64(id)<<16)
 				sim.Tracef("  task %d cycle %d: Get -> obj#%d", ti, cyc, id)
 				t.Yield(sFresh)
 				if v := freshCheck(a, b); v != nil {
@@ -235,6 +236,7 @@ func (h *H[T]) C11(rc *runCtx) *Violation {
 					handleOf(cy).Put(pb)
 				}()
 				ops++
+				sim.Mix(0xa000 | uint64(pbID)<<16)
 				// Whatever header went into the pool, the task lets go of the one it got.
 				ts.events = append(ts.events, poolEvent{step: t.Step, task: ti, kind: evPut, obj: sim.ObjID(unsafe.Pointer(hdr)), rejected: pv != nil})
 				if pb != hdr {
@@ -322,6 +324,7 @@ func (h *H[T]) C11(rc *runCtx) *Violation {
 	lastPut := map[int]int{} // obj -> task that put it last
 	putStep := map[int]int{} // obj -> step of that put
 	holding := make([]int, len(states))
+	recycles := 0
 	for _, e := range all {
 		switch e.kind {
 		case evGet:
@@ -333,6 +336,7 @@ func (h *H[T]) C11(rc *runCtx) *Violation {
 			}
 			holder[e.obj] = e.task
 			if lp, ok := lastPut[e.obj]; ok {
+				recycles++
 				if lp != e.task {
 					rc.probes[pXTaskRecycle]++
 				} else {
@@ -372,6 +376,6 @@ func (h *H[T]) C11(rc *runCtx) *Violation {
 			// never returned: the hold lasts for ever; the pool must not hand it out again
 		}
 	}
-	rc.nontrivial = g >= 2 && sim.Counters[simrt.CtPoolGetHit] > 0
+	rc.nontrivial = g >= 2 && recycles > 0
 	return first
 }
